@@ -13,7 +13,7 @@ ALLOWED_AXIOMS = []
 TRUSTED = [
     'hand-written model coq/model/Routine.v + coq/model/Cond.v of sc3/base/stream.py (Routine.next/reset/pause/resume/stop/play, '
     'Condition, FlowVar) and of the NRT wake-up loop of sc3/base/clock.py (ClockScheduler.run / ClockTask._wakeup / '
-    'SystemClock.sched), tied to the code by differential testing of generated script programs (harness/impl/c11_run.py)',
+    'SystemClock.sched; one pending wake-up per routine, a new sched replaces the previous entry), tied to the code by differential testing of generated script programs (harness/impl/c11_run.py)',
     'CPython generators by specification: a generator is a position in a finite script; send() into an executing generator '
     'raises ValueError; StopIteration subclasses escaping a generator become RuntimeError (PEP 479)',
     'the script-to-generator compiler and the observation encoder in harness/impl/c11_run.py',
